@@ -431,12 +431,9 @@ func (ee *explainer) explainSeqMappings(mm []mapping) {
 		}
 
 		if rangeLen > 2 {
-			fmt.Fprintf(ee.w, "%s-%s -> %s-%s",
-				ee.names[mm[0].from[0]],
-				ee.names[mm[rangeLen-1].from[0]],
-				ee.names[mm[0].to[0]],
-				ee.names[mm[rangeLen-1].to[0]],
-			)
+			ee.writeGlyphRange(mm[0].from[0], mm[rangeLen-1].from[0])
+			ee.w.WriteString(" -> ")
+			ee.writeGlyphRange(mm[0].to[0], mm[rangeLen-1].to[0])
 			mm = mm[rangeLen:]
 		} else {
 			ee.writeGlyphList(mm[0].from)
@@ -445,6 +442,20 @@ func (ee *explainer) explainSeqMappings(mm []mapping) {
 			mm = mm[1:]
 		}
 	}
+}
+
+// writeGlyphRange writes the range of glyphs from first to last.
+func (ee *explainer) writeGlyphRange(first, last glyph.ID) {
+	sep := "-"
+	if name := ee.names[last]; name != "" && name[0] >= '0' && name[0] <= '9' {
+		// Glyphs without a name are written as numbers.  The parser reads
+		// a hyphen which is directly followed by a digit as the sign of a
+		// number, so the hyphen must be set apart.
+		sep = " - "
+	}
+	ee.w.WriteString(ee.names[first])
+	ee.w.WriteString(sep)
+	ee.w.WriteString(ee.names[last])
 }
 
 func (ee *explainer) writeGlyph(gid glyph.ID) {
